@@ -526,8 +526,8 @@ func (w *world) exec(s step) {
 		}
 		w.ovX.Process(env)
 		w.emit(fmt.Sprintf("TreeArrive %d", s.Tree), false)
-		if state != 0 {
-			// accepted: the flush goroutine re-transmits every parked message of this tree
+		if state == 1 {
+			// requested and missing: stored; the flush goroutine re-transmits every parked message of this tree
 			w.flushed(s.Tree, fd)
 		} else {
 			fd.Release()
